@@ -51,15 +51,23 @@ DigAlpha == <<48, 57, 47, 58, 97>>
 
 RECURSIVE Pow(_, _)
 Pow(b, e) == IF e = 0 THEN 1 ELSE b * Pow(b, e-1)
-\* the k-th (0-based) string of length n over the alphabet A
-Str(A, n, k) == [p \in 1..n |-> A[((k \div Pow(Len(A), n-p)) % Len(A)) + 1]]
-Strs(A, n) == [k \in 1..Pow(Len(A), n) |-> Str(A, n, k-1)]
+\* all strings of length n over the alphabet A in lexicographic order of letter indices; Str(A, n, k) is the k-th (0-based)
+RECURSIVE Strs(_, _)
+Strs(A, n) == IF n = 0 THEN << <<>> >>
+              ELSE LET prev == Strs(A, n-1) IN
+                   TLCEval([k \in 1..Len(prev) * Len(A) |-> Append(prev[((k-1) \div Len(A)) + 1], A[((k-1) % Len(A)) + 1])])
+Str(A, n, k) == TLCEval([p \in 1..n |-> A[((k \div Pow(Len(A), n-p)) % Len(A)) + 1]])
 RECURSIVE StrsUpTo(_, _, _)
 StrsUpTo(A, a, b) == IF a > b THEN <<>> ELSE Strs(A, a) \o StrsUpTo(A, a+1, b)
 
-Hays == StrsUpTo(HayAlpha, 0, MaxHay)
-HaysBig == StrsUpTo(HayAlphaBig, 0, MaxHayBig)
-HaysDig == StrsUpTo(DigAlpha, 0, MaxHay)
+\* This TLC does not memoise zero-arity definitions: every reference re-evaluates the body.  The large constants are
+\* therefore computed once, in an ASSUME, into TLC registers (TLCSet in an ASSUME is inherited by all workers).
+HaysDef == StrsUpTo(HayAlpha, 0, MaxHay)
+HaysBigDef == StrsUpTo(HayAlphaBig, 0, MaxHayBig)
+HaysDigDef == StrsUpTo(DigAlpha, 0, MaxHay)
+Hays == TLCGet(1)
+HaysBig == TLCGet(2)
+HaysDig == TLCGet(3)
 
 IsPre(a, b) == Len(a) <= Len(b) /\ \A k \in 1..Len(a) : a[k] = b[k]
 PrefRel(S) == \E i, j \in 1..Len(S) : i # j /\ IsPre(S[i], S[j])
@@ -67,8 +75,7 @@ WithRev(S) == IF PrefRel(S) THEN <<S, Reverse(S)>> ELSE <<S>>
 
 C2(n) == SetToSeq(UNION {{<<i, j>> : j \in i+1..n} : i \in 1..n})
 C3(n) == SetToSeq(UNION {UNION {{<<i, j, k>> : k \in j+1..n} : j \in i+1..n} : i \in 1..n})
-C4(n) == SetToSeq(UNION {UNION {UNION {{<<i, j, k, l>> : l \in k+1..n} : k \in j+1..n} : j \in i+1..n} : i \in 1..n})
-Pick(P, t) == [m \in 1..Len(t) |-> P[t[m]]]
+Pick(P, t) == TLCEval([m \in 1..Len(t) |-> P[t[m]]])
 
 LP14 == StrsUpTo(Lit, 1, 4)
 LP13 == StrsUpTo(Lit, 1, 3)
@@ -76,11 +83,21 @@ LP12 == StrsUpTo(Lit, 1, 2)
 L3 == Strs(Lit, 3)
 N3 == Len(L3)
 
-S1 == [k \in 1..Len(LP14) |-> <<LP14[k]>>]
+S1 == TLCEval([k \in 1..Len(LP14) |-> <<LP14[k]>>])
 F2 == LET c == C2(Len(LP13)) IN FlattenSeq([k \in 1..Len(c) |-> WithRev(Pick(LP13, c[k]))])
 F3 == LET c == C3(Len(LP12)) IN FlattenSeq([k \in 1..Len(c) |-> WithRev(Pick(LP12, c[k]))])
-T3 == LET c == C3(N3) IN [k \in 1..Len(c) |-> Pick(L3, c[k])]
-T4 == IF Quads = 1 THEN LET c == C4(N3) IN [k \in 1..Len(c) |-> Pick(L3, c[k])] ELSE <<>>
+T3 == LET c == C3(N3) IN TLCEval([k \in 1..Len(c) |-> Pick(L3, c[k])])
+\* T4 is enumerated by index (combinatorial number system), not built: Unrank(k, lo, n, r) = the k-th (0-based, lexicographic)
+\* r-subset of lo..n as an increasing sequence
+Choose(n, r) == CASE r = 0 -> 1 [] r = 1 -> n [] r = 2 -> (n * (n-1)) \div 2 [] r = 3 -> (n * (n-1) * (n-2)) \div 6
+                  [] r = 4 -> (n * (n-1) * (n-2) * (n-3)) \div 24
+RECURSIVE Unrank(_, _, _, _)
+Unrank(k, lo, n, r) ==
+  IF r = 0 THEN <<>>
+  ELSE LET c == Choose(n - lo, r - 1) IN
+       IF k < c THEN <<lo>> \o Unrank(k, lo + 1, n, r - 1) ELSE Unrank(k - c, lo + 1, n, r)
+NT4 == IF Quads = 1 THEN Choose(N3, 4) ELSE 0
+T4At(k) == Pick(L3, Unrank(k - 1, 1, N3, 4))
 X5 == FlattenSeq([k \in 1..N3 * NAlpha |->
         LET l == L3[((k-1) % N3) + 1]
             lx == l \o <<Lit[((k-1) \div N3) + 1]>>
@@ -92,25 +109,32 @@ X5 == FlattenSeq([k \in 1..N3 * NAlpha |->
 NS(N) == IF (N+1) \div 2 > N3 THEN N3 ELSE (N+1) \div 2
 Short(k) == Str(Lit, 3, k)
 Long(N, j) == Short(j % NS(N)) \o <<Lit[(j \div NS(N)) + 1]>>
-SF(N) == [i \in 1..N |-> IF i <= NS(N) THEN Short(i-1) ELSE Long(N, i-1-NS(N))]
-LF(N) == [i \in 1..N |-> IF i <= N - NS(N) THEN Long(N, i-1) ELSE Short(i-1-(N-NS(N)))]
-Mul(N, m) == LET b == SF(N) IN [i \in 1..N |-> b[(((i-1) * m) % N) + 1]]
+SF(N) == TLCEval([i \in 1..N |-> IF i <= NS(N) THEN Short(i-1) ELSE Long(N, i-1-NS(N))])
+LF(N) == TLCEval([i \in 1..N |-> IF i <= N - NS(N) THEN Long(N, i-1) ELSE Short(i-1-(N-NS(N)))])
+Mul(N, m) == LET b == SF(N) IN TLCEval([i \in 1..N |-> b[(((i-1) * m) % N) + 1]])
 Five == <<Lit[3]>> \o Short(1) \o <<Lit[3]>>           \* b aaq b: holds the literal aaq strictly inside
-X5Last(N) == [SF(N) EXCEPT ![N] = Five]
+X5Last(N) == TLCEval([SF(N) EXCEPT ![N] = Five])
 X5First(N) == <<Five>> \o SubSeq(SF(N), 1, N-1)
 BigSizes == <<8, 9, 32, 33, 64, 65, 100>>
 BIG == FlattenSeq([k \in 1..Len(BigSizes) |-> LET N == BigSizes[k] IN
          <<SF(N), LF(N), Mul(N, 7), Mul(N, 17)>> \o (IF N \in {9, 33, 65, 100} THEN <<X5Last(N), X5First(N)>> ELSE <<>>)])
 
-Tag(name, S, big) == [k \in 1..Len(S) |-> [fam |-> name, L |-> S[k], big |-> big]]
-Small == Tag("S1", S1, FALSE) \o Tag("F2", F2, FALSE) \o Tag("F3", F3, FALSE) \o Tag("T3", T3, FALSE)
-         \o Tag("X5", X5, FALSE) \o Tag("T4", T4, FALSE)
-Sets == Small \o Tag("BIG", BIG, TRUE)
-NSmall == Len(Small)
-NSets == Len(Sets)
+Tag(name, S, big) == TLCEval([k \in 1..Len(S) |-> [fam |-> name, L |-> S[k], big |-> big]])
+\* numbering of the literal sets: 1..NBase the small families, then T4 (by index), then BIG
+BaseDef == Tag("S1", S1, FALSE) \o Tag("F2", F2, FALSE) \o Tag("F3", F3, FALSE) \o Tag("T3", T3, FALSE) \o Tag("X5", X5, FALSE)
+BigSetsDef == Tag("BIG", BIG, TRUE)
+ASSUME TLCSet(1, HaysDef) /\ TLCSet(2, HaysBigDef) /\ TLCSet(3, HaysDigDef) /\ TLCSet(4, BaseDef) /\ TLCSet(5, BigSetsDef)
+Base == TLCGet(4)
+BigSets == TLCGet(5)
+NBase == Len(Base)
+NSmall == NBase + NT4
+NSets == NSmall + Len(BigSets)
+SetAt(i) == IF i <= NBase THEN Base[i]
+            ELSE IF i <= NSmall THEN [fam |-> "T4", L |-> T4At(i - NBase), big |-> FALSE]
+            ELSE BigSets[i - NSmall]
 
-ASSUME \A i \in 1..NSets : \A k \in 1..Len(Sets[i].L) : Len(Sets[i].L[k]) >= 1
-ASSUME \A i \in NSmall+1..NSets : LET L == Sets[i].L IN \A a, b \in 1..Len(L) : a # b => L[a] # L[b]
+ASSUME \A i \in (1..NBase) \cup (NSmall+1..NSets) : \A k \in 1..Len(SetAt(i).L) : Len(SetAt(i).L[k]) >= 1
+ASSUME \A i \in NSmall+1..NSets : LET L == SetAt(i).L IN \A a, b \in 1..Len(L) : a # b => L[a] # L[b]
 
 (* ------------------------------------------------------------------ *)
 (* gen: records                                                       *)
@@ -119,17 +143,25 @@ ASSUME \A i \in NSmall+1..NSets : LET L == Sets[i].L IN \A a, b \in 1..Len(L) : 
 Code(sp) == IF sp[1] = -1 THEN 0 ELSE (sp[1] + 1) * 16 + (sp[2] - sp[1])
 
 SetRec(i) ==
-  LET e == Sets[i]
+  LET e == SetAt(i)
       L == e.L
       H == IF e.big THEN HaysBig ELSE Hays
-      hit == {x \in 1..Len(H) : \E p \in 0..Len(H[x])-1 : Occurs(L, H[x], p)}
-      hitl == {x \in hit : \E p \in 0..Len(H[x])-1 : Occurs(L, H[x], p) /\ AtLineStart(H[x], p)}
-      row(x) == <<x>> \o [s \in 1..Len(H[x])+1 |-> Code(PMatch(L, H[x], s-1))]
-      rowl(x) == <<x>> \o [s \in 1..Len(H[x])+1 |-> Code(PMatchLine(L, H[x], s-1))]
+      ms == TLCEval([x \in 1..Len(H) |-> TLCEval(LitVec(L, H[x]))])
+      hit == {x \in 1..Len(H) : \E p \in 1..Len(H[x]) : ms[x][p] # 0}
+      hitl == {x \in hit : \E p \in 1..Len(H[x]) : ms[x][p] # 0 /\ AtLineStart(H[x], p-1)}
+      row(x) == <<x>> \o [s \in 1..Len(H[x])+1 |-> Code(PMatchV(L, H[x], ms[x], s-1))]
+      rowl(x) == <<x>> \o [s \in 1..Len(H[x])+1 |-> Code(PMatchLineV(L, H[x], ms[x], s-1))]
       hs == SetToSeq(hit)
       ls == SetToSeq(hitl)
-  IN [k |-> "set", i |-> i, fam |-> e.fam, big |-> e.big, lits |-> L, nhay |-> Len(H),
+      \* sample check of the one-pass formulation against the definitions (every 64th haystack, rotating with i)
+      lemma == \A x \in {y \in 1..Len(H) : y % 64 = i % 64} : \A s \in 0..Len(H[x]) :
+                 /\ PMatchV(L, H[x], ms[x], s) = PMatch(L, H[x], s)
+                 /\ PMatchLineV(L, H[x], ms[x], s) = PMatchLine(L, H[x], s)
+                 /\ PMatch(L, H[x], s)[1] = PFind(L, H[x], s)
+  IN IF Assert(lemma, <<"one-pass formulation differs from PMatch", i>>) THEN
+     [k |-> "set", i |-> i, fam |-> e.fam, big |-> e.big, lits |-> L, nhay |-> Len(H),
       hs |-> [n \in 1..Len(hs) |-> row(hs[n])], ls |-> [n \in 1..Len(ls) |-> rowl(ls[n])]]
+     ELSE <<>>
 
 DigitRec == [k |-> "digit", rows |-> [x \in 1..Len(HaysDig) |-> [s \in 1..Len(HaysDig[x])+1 |-> DigitFind(HaysDig[x], s-1) + 1]]]
 
@@ -178,7 +210,7 @@ TeddyCfgs(L) ==
     \cup (IF ml >= 2 THEN {<<"fat", "carry", 2, B>> : B \in {2, 4}} ELSE {})
     \cup {<<"fat", "scalar", 1, 2>>}
 TeddyRec(i) ==
-  LET e == Sets[i]
+  LET e == SetAt(i)
       L == e.L
       H == IF e.big THEN HaysBig ELSE Hays
       cs == TeddyCfgs(L)
